@@ -850,6 +850,9 @@ func (s *Entry) TraceContext(ctx context.Context, msg string, args ...any) {
 
 // PrintContext implements Logger.
 func (s *Entry) PrintContext(ctx context.Context, msg string, args ...any) {
+	if !s.EnabledContext(ctx, AlwaysLevel) {
+		return
+	}
 	pc := getpc(2, s.extraFrames)
 	s.logContext(ctx, AlwaysLevel, pc, msg, args...)
 	// panic("unimplemented")
@@ -857,24 +860,36 @@ func (s *Entry) PrintContext(ctx context.Context, msg string, args ...any) {
 
 // PrintlnContext implements Logger.
 func (s *Entry) PrintlnContext(ctx context.Context, msg string, args ...any) {
+	if !s.EnabledContext(ctx, AlwaysLevel) {
+		return
+	}
 	pc := getpc(2, s.extraFrames)
 	s.logContext(ctx, AlwaysLevel, pc, msg, args...)
 }
 
 // OKContext implements Logger.
 func (s *Entry) OKContext(ctx context.Context, msg string, args ...any) {
+	if !s.EnabledContext(ctx, OKLevel) {
+		return
+	}
 	pc := getpc(2, s.extraFrames)
 	s.logContext(ctx, OKLevel, pc, msg, args...)
 }
 
 // SuccessContext implements Logger.
 func (s *Entry) SuccessContext(ctx context.Context, msg string, args ...any) {
+	if !s.EnabledContext(ctx, SuccessLevel) {
+		return
+	}
 	pc := getpc(2, s.extraFrames)
 	s.logContext(ctx, SuccessLevel, pc, msg, args...)
 }
 
 // FailContext implements Logger.
 func (s *Entry) FailContext(ctx context.Context, msg string, args ...any) {
+	if !s.EnabledContext(ctx, FailLevel) {
+		return
+	}
 	pc := getpc(2, s.extraFrames)
 	s.logContext(ctx, FailLevel, pc, msg, args...)
 }
